@@ -280,8 +280,10 @@ def norm(t, pol=True):
         return t, pol
 
 
-def implied(cond, val):
-    """leaf facts [(tree, bool)] that necessarily hold when `cond` evaluates to `val`"""
+def implied(cond, val, known=None):
+    """leaf facts [(tree, bool)] that necessarily hold when `cond` evaluates to `val`; known(leaf tree) -> True/False/None gives the values of
+    sub-conditions already decided on this path (short-circuit evaluation of this very expression): `A || B` true with A known false implies B,
+    `A && B` false with A known true implies !B"""
     out = []
     st = [(cond, val)]
     while st:
@@ -294,6 +296,13 @@ def implied(cond, val):
             elif t["op"] == "||" and not v:
                 st.append((t.get("l"), False))
                 st.append((t.get("r"), False))
+            elif known is not None:
+                blocked = (t["op"] == "&&")          # '&&' false: a side known true forces the other false; '||' true: a side known false forces the other true
+                kl, kr = eval3(t.get("l"), known), eval3(t.get("r"), known)
+                if kl is blocked and kl is not None:
+                    st.append((t.get("r"), v))
+                elif kr is blocked and kr is not None:
+                    st.append((t.get("l"), v))
             continue
         if t is not None:
             out.append((t, v))
